@@ -20,10 +20,10 @@ __CPROVER_ensures(__CPROVER_return_value >= 0.0)
 __CPROVER_assigns()
 ;
 
-/* F3/F4: x >= 0, 0 <= d <= NMAX  =>  trunc(fl(x*d)) >= 0 and the conversion to intptr_t is defined when x <= 1 or result saturates
- * (alpha <= 1 is not needed by the contract: ranges::next clamps at the bound) */
-intptr_t stub_trunc_mul(double x, double d)
-__CPROVER_requires(x >= 0.0 && d >= 0.0 && d <= (double)NMAX)
+/* F3/F4: x >= 0, 0 <= d <= NMAX  =>  fl(x * (double)d) >= 0 and its truncation toward zero is a non-negative intptr_t
+ * (for x <= 1 the product is <= NMAX; larger or NaN-free values clamp at ranges::next's bound, so only the sign matters) */
+intptr_t stub_trunc_mul(double x, intptr_t d)
+__CPROVER_requires(x >= 0.0 && d >= 0 && d <= NMAX)
 __CPROVER_ensures(__CPROVER_return_value >= 0)
 __CPROVER_assigns()
 ;
